@@ -1,7 +1,7 @@
 (* Driver entry for the designer front-end model (C04, C05, C15). *)
 From Coq Require Import List String Ascii Arith Bool.
 From Coq Require Import ZArith.
-From PC Require Import Base.Sexp Comp.Syntax Design.Designer Design.DesignerProofs Design.TemplateProofs SSM.Contract SSM.Search Run.RComp.
+From PC Require Import Base.Sexp Comp.Syntax Design.Designer Design.DesignerProofs Design.TemplateProofs SSM.Contract SSM.Search SSM.ValidProofs Run.RComp.
 Import ListNotations.
 Local Open Scope string_scope.
 
@@ -59,6 +59,39 @@ Definition run_files (req : sexp) : sexp :=
   end.
 
 (* C19: the validity predicate on a sequence printed by the real binary: (st wc eq S) *)
+(* C19 ties: constrain on an arbitrary start sequence; one accepted search step = some mutation of a
+   free location to another base of its template; consistency of the triple (hypothesis of the theorems) *)
+Definition run_ssmconstrain (req : sexp) : sexp :=
+  match req with
+  | Li [At st; wc; eq; At sq] =>
+      match dL dZ wc, dL dZ eq with
+      | Some w, Some e => At (unchars (constrain {| t_st := chars st; t_wc := w; t_eq := e |} (chars sq)))
+      | _, _ => bad_request
+      end
+  | _ => bad_request
+  end.
+Definition is_mutation (t : triple) (a b : list ascii) : bool :=
+  existsb (fun i => existsb (fun c => negb (Ascii.eqb c (nthc a i)) && compatible (nthc (t_st t) i) c &&
+                                       String.eqb (unchars (mutate t a i c)) (unchars b)) ["A"; "C"; "G"; "T"]%char) (freeloc t).
+Definition run_ssmstep (req : sexp) : sexp :=
+  match req with
+  | Li [At st; wc; eq; At a; At b] =>
+      match dL dZ wc, dL dZ eq with
+      | Some w, Some e => sB (is_mutation {| t_st := chars st; t_wc := w; t_eq := e |} (chars a) (chars b))
+      | _, _ => bad_request
+      end
+  | _ => bad_request
+  end.
+Definition run_ssmtriple (req : sexp) : sexp :=
+  match req with
+  | Li [At st; wc; eq] =>
+      match dL dZ wc, dL dZ eq with
+      | Some w, Some e => sB (triple_ok {| t_st := chars st; t_wc := w; t_eq := e |})
+      | _, _ => bad_request
+      end
+  | _ => bad_request
+  end.
+
 Definition run_ssmvalid (req : sexp) : sexp :=
   match req with
   | Li [At st; wc; eq; At sq] =>
